@@ -234,7 +234,7 @@ func navigate(v Val, path []Step) Val {
 
 func update(v Val, path []Step, nv Val) Val {
 	if len(path) == 0 {
-		return Val{T: v.T, C: nv.C}
+		return Val{T: v.T, C: nv.C, Clo: nv.Clo}
 	}
 	s := path[0]
 	if s.Field >= 0 {
